@@ -117,6 +117,9 @@ def prove_on_message_received(src_root, ex: Explorer):
         it = mk(src_root, ctx)
         net, log = mk_network(it, ctx)
         conn = Obj(cls(it, CONN, 'ServerConnection'))
+        # the connection may be closing or closed by the time the handlers have run (a handler or listener closed it, the peer hung up): the
+        # message WAS received, its waiters are completed all the same
+        conn.attrs['state'] = enum(it, CONN, 'ConnectionState', ['CONNECTED', 'CLOSING', 'CLOSED'][ctx.choose(3, 'connection-state-after-handlers')])
         M1 = cls(it, 'protocol.messages', 'GetPeerAddress.Response')
         msg = Obj(M1)
         handler_known = ctx.choose(2, 'handler') == 1
